@@ -21,6 +21,7 @@ type SpecEnv struct {
 	cells bool // identifiers resolve to the current values of local variables first
 	pkg   *ssa.Package
 	depth int
+	pre   *State // loop invariants: the state at loop entry, for pre(e) and newer(x)
 }
 
 func (f *Frame) specEnv(st, old *State, cells bool) *SpecEnv {
@@ -88,6 +89,8 @@ func (e *SpecEnv) typeByName(n string) types.Type {
 		return t
 	}
 	switch n {
+	case "ByteSlice":
+		return types.NewSlice(types.Typ[types.Uint8])
 	case "interface{}", "any":
 		return types.NewInterfaceType(nil, nil)
 	case "error":
@@ -495,14 +498,14 @@ func (e *SpecEnv) index(n *SIndex) Val {
 	switch u := v.T.Underlying().(type) {
 	case *types.Basic:
 		if isString(v.T) {
-			return Val{T: types.Typ[types.Uint8], S: fmt.Sprintf("(select (sarr %s) %s)", v.S, c.idxAdd(fmt.Sprintf("(soff %s)", v.S), idx))}
+			return Val{T: types.Typ[types.Uint8], S: c.arrAt(c.byteSort(), fmt.Sprintf("(sarr %s)", v.S), fmt.Sprintf("(soff %s)", v.S), idx)}
 		}
 	case *types.Slice:
 		if e.st == nil {
 			sfail("slice contents in a state-free context: %s", n)
 		}
 		hn, hs := c.heapNameArr(u.Elem())
-		return Val{T: u.Elem(), S: fmt.Sprintf("(select (select %s (sbase %s)) %s)", c.heap(e.st, hn, hs), v.S, c.idxAdd(fmt.Sprintf("(xoff %s)", v.S), idx))}
+		return Val{T: u.Elem(), S: c.arrAt(c.sortOf(u.Elem()), fmt.Sprintf("(select %s (sbase %s))", c.heap(e.st, hn, hs), v.S), fmt.Sprintf("(xoff %s)", v.S), idx)}
 	case *types.Array:
 		return Val{T: u.Elem(), S: fmt.Sprintf("(select %s %s)", v.S, idx)}
 	}
@@ -802,6 +805,16 @@ func (e *SpecEnv) call(n *SCall, hint types.Type) Val {
 			sfail("ptrbase of non array pointer %s", n.Args[0])
 		}
 		return Val{T: I, S: v.P.Ref}
+	case "addr": // address of a package-level variable
+		id, ok := n.Args[0].(*SIdent)
+		if !ok || e.pkg == nil {
+			sfail("addr(<global>)")
+		}
+		g, ok := e.pkg.Members[id.Name].(*ssa.Global)
+		if !ok {
+			sfail("addr(%s): not a package-level variable", id.Name)
+		}
+		return Val{T: g.Type(), S: c.addrOf(&Path{Kind: rootGlobal, Glob: g})}
 	case "isnil":
 		v := e.eval(n.Args[0], nil)
 		if v.P != nil {
@@ -826,6 +839,24 @@ func (e *SpecEnv) call(n *SCall, hint types.Type) Val {
 		fn := "ifaceval_" + sanitize(srt)
 		c.decl("fn:"+fn, fmt.Sprintf("(declare-fun %s (Int) %s)", fn, srt))
 		return Val{T: t, S: fmt.Sprintf("(%s %s)", fn, v.S)}
+	case "pre": // value of an expression at loop entry (loop invariants only)
+		if e.pre == nil {
+			sfail("pre() is only available in loop invariants")
+		}
+		o := e.sub()
+		o.st = e.pre
+		o.cells = false
+		return o.eval(n.Args[0], hint)
+	case "newer": // allocated after the loop was entered (loop invariants only)
+		if e.pre == nil {
+			sfail("newer() is only available in loop invariants")
+		}
+		v := e.eval(n.Args[0], nil)
+		r := v.S
+		if _, isSlice := v.T.Underlying().(*types.Slice); isSlice {
+			r = fmt.Sprintf("(sbase %s)", v.S)
+		}
+		return Val{T: types.Typ[types.Bool], S: fmt.Sprintf("(and (> %s 0) (>= (born %s) %s))", r, r, c.now(e.pre))}
 	case "same": // structural (bitwise) equality of two values of the same sort
 		a := e.eval(n.Args[0], nil)
 		b := e.eval(n.Args[1], a.T)
@@ -892,7 +923,7 @@ func (e *SpecEnv) callPure(pf *PureFunc, args []SExpr, hint types.Type) Val {
 	if len(args) != len(pf.Params) {
 		sfail("%s expects %d arguments", pf.Name, len(pf.Params))
 	}
-	penv := &SpecEnv{f: e.f, c: c, vars: map[string]Val{}, st: e.st, old: e.old, pkg: e.pkg, depth: e.depth + 1}
+	penv := &SpecEnv{f: e.f, c: c, vars: map[string]Val{}, st: e.st, old: e.old, pkg: e.pkg, depth: e.depth + 1, pre: e.pre}
 	if pp := c.eng.ssaPkg(pf.Pkg); pp != nil {
 		penv.pkg = pp
 	}
@@ -946,7 +977,12 @@ func (e *SpecEnv) callPure(pf *PureFunc, args []SExpr, hint types.Type) Val {
 	var as []string
 	for _, a := range avals {
 		if a.P != nil {
-			sfail("structural pointer passed to SMT-level spec function %s", pf.Name)
+			if e.f == nil {
+				sfail("structural pointer passed to SMT-level spec function %s", pf.Name)
+			}
+			// identity of the pointed-to location (addresses of globals / locals are opaque non-nil constants)
+			as = append(as, e.f.ptrTerm(a))
+			continue
 		}
 		as = append(as, a.S)
 	}
@@ -1064,4 +1100,18 @@ func (e *SpecEnv) lvalue(x SExpr) lval {
 	}
 	sfail("unsupported modifies target %s", x)
 	return lval{}
+}
+
+// arrAt: element k of an array window starting at off.  In int mode the access
+// goes through an SMT function with a defining axiom triggered on the function
+// itself, so that quantified contract clauses match on the whole index term
+// (plain (select a (+ off k)) patterns break under arithmetic normalisation).
+func (c *Ctx) arrAt(elemSort, arr, off, k string) string {
+	if c.mode != "int" {
+		return fmt.Sprintf("(select %s %s)", arr, c.idxAdd(off, k))
+	}
+	fn := "arrat_" + sanitize(elemSort)
+	c.decl("fn:"+fn, fmt.Sprintf("(declare-fun %s ((Array Int %s) Int Int) %s)", fn, elemSort, elemSort))
+	c.decl("ax:"+fn, fmt.Sprintf("(assert (forall ((a!a (Array Int %s)) (o!a Int) (k!a Int)) (! (= (%s a!a o!a k!a) (select a!a (+ o!a k!a))) :pattern ((%s a!a o!a k!a)))))", elemSort, fn, fn))
+	return fmt.Sprintf("(%s %s %s %s)", fn, arr, off, k)
 }
